@@ -5,7 +5,7 @@ from __future__ import annotations
 import ast
 
 from ..flow import FlowPolicy, exits, pairing, relevant_locals, run_flow
-from ..absint import NONE, Const, FuncV, ListV, ObjV, Out, Sym
+from ..absint import NONE, App, Const, DictV, FuncV, ListV, ObjV, Out, Sym
 from ..repo import AnalysisError, body_walk, call_name, norm
 
 LEVEL_TEXT = (
@@ -162,10 +162,10 @@ def run(ctx):
     ctx.check(ok, "R15.3", "decorator.py::WaitUntilDecoratorManager.wait_until", "timeout result iff the dispatching trigger is the timeout decorator",
               msg="WaitUntilDecoratorManager.wait_until no longer compares data.trigger with the timeout decorator", key="timeout tied to timeout decorator",
               node=f4, rel="decorator.py")
-    f5 = program.func("decorator.py::WaitUntilDecoratorManager.__init__")
-    ok = any(isinstance(n, ast.JoinedStr) and "once(now" in norm(n) and "timeout" in norm(n) for n in body_walk(f5))
-    ctx.check(ok, "R15.3", "decorator.py::WaitUntilDecoratorManager.__init__", "timeout implemented as once(now + timeout)",
-              msg="the timeout decorator is no longer built from once(now + <timeout>s)", key="timeout decorator spec", node=f5, rel="decorator.py")
+    timeout_table(ctx, program, "R15.3")
+    ctx.rule("R15.10", "new subsystem: a time trigger without any future instant ends the wait with 'none' only when it is the wait's only condition "
+             "(with a state/event/mqtt/webhook condition or a timeout the wait goes on)", floor=3)
+    none_result_rule(ctx, program, "R15.10")
     ctx.rule("R15.7", "wait_until with state_hold returns the arguments of the event that started the hold (new subsystem, both expiry paths)", floor=2)
     from .c05 import hold_expiry_rule
     hold_expiry_rule(ctx, program, "R15.7")
@@ -175,6 +175,15 @@ def run(ctx):
 
     ctx.rule("R15.5", "a manager that is stopped while its start loop is still running (the first trigger fired at once) starts no further trigger", floor=2)
     start_typestate(ctx, program, "R15.5")
+
+    ctx.rule("R15.9", "trigger decorators (state, webhook, event, mqtt): a stop() that arrives at any point of start() - before it, at each call inside it that can run "
+             "other code, after it - releases exactly what start() had acquired by then (nothing is left registered, nothing of another owner is released)", floor=9)
+    decorator_typestate(ctx, program, "R15.9")
+
+    ctx.rule("R15.11", "the dictionary a wait returns (and tests its condition on) is its own: every subscriber queue of a state/event/mqtt/webhook source gets a copy of "
+             "the occurrence's arguments, so a trigger function's kwargs or another wait cannot alter it", floor=4)
+    from .c08 import fanout_copy_rule
+    fanout_copy_rule(ctx, program, "R15.11")
 
     ctx.rule("R15.6", "legacy wait_until: a notification received during a pending state_hold is never taken for the hold's expiry (scripted histories)", floor=7)
     from .c05 import legacy_hold_rules
@@ -186,6 +195,143 @@ def run(ctx):
         "(state/event/mqtt/webhook subscription; decorator manager).  The summary 'dm.wait_until() returns only after stop()' is itself checked on "
         "WaitUntilDecoratorManager.dispatch/handle_exception.  Not decided: which trigger fires first, timing, values returned."
     )
+
+
+TYPESTATE = [
+    # (class unit, acquisition call, release call, True when releasing without having acquired can take away somebody else's registration)
+    ("decorators/state.py::StateTriggerDecorator", "State.notify_add", "State.notify_del", False),
+    ("decorators/webhook.py::WebhookTriggerDecorator", "webhook.async_register", "webhook.async_unregister", True),
+    ("decorators/event.py::EventTriggerDecorator", "self.dm.hass.bus.async_listen", "self.remove_listener_callback", False),
+    ("decorators/mqtt.py::MQTTTriggerDecorator", "mqtt.async_subscribe", "self.remove_listener_callback", False),
+]
+
+
+class _TypestatePolicy(FlowPolicy):
+    """start(): after the acquisition every call that can run foreign code (an await, an eagerly started task) is a point where stop() may re-enter;
+    the heap at each such point is recorded."""
+
+    def __init__(self, program, acquire, **kw):
+        super().__init__(program, **kw)
+        self.acquire = acquire
+        self.snaps = []
+
+    def call(self, interp, node, fname, fval, args, kwargs, cfg, out):
+        label = self.label(fname, fval)
+        if label == self.acquire:
+            cfg = cfg.emit(("call", "acquire", tuple(args), (), getattr(node, "lineno", 0)))
+            if label == "State.notify_add":
+                return [(cfg, Const(True))]
+            return [(cfg, ObjV("handle", "CALLBACK_TYPE"))]  # the un-subscribe handle (a callable: truthy)
+        held = any(e[0] == "call" and e[1] == "acquire" for e in cfg.trace)
+        if label and not self.is_no_raise(label) and label not in self.summaries and not label.startswith("_LOGGER."):
+            self.snaps.append((f"inside {label} (line {node.lineno})", dict(cfg.heap), held))
+        return super().call(interp, node, fname, fval, args, kwargs, cfg, out)
+
+
+def decorator_typestate(ctx, program, rid):
+    """Trigger decorators of the new subsystem: stop() may arrive at any re-entry point of start() (DecoratorManager.stop walks all decorators, started or not)."""
+    for cls_uid, acquire, release, shared in TYPESTATE:
+        rel = cls_uid.split("::")[0]
+        st_uid, sp_uid = f"{cls_uid}.start", f"{cls_uid}.stop"
+        summ = {"super().start": lambda i, n, a, k, c, o: [(c, NONE)], "super().stop": lambda i, n, a, k, c, o: [(c, NONE)]}
+        pol = _TypestatePolicy(program, acquire, may_raise_all=False, cancel=False, summaries=summ)
+        self_v = ObjV("self", cls_uid.split("::")[1])
+        heap0 = {"self.args": ListV((Const("hook1"), ), "list"), "self.webhook_id": Const("hook1"),
+                 "self.state_trig_ident": ListV((Const("d.a"),), "set"), "self.dm": ObjV("dm", "DecoratorManager"), "self.name": Const("t")}
+        # class-level defaults of the decorator class (constants) are the instance's initial attribute values
+        for st in program.cls(cls_uid).body:
+            tgt = st.target if isinstance(st, ast.AnnAssign) else (st.targets[0] if isinstance(st, ast.Assign) and len(st.targets) == 1 else None)
+            if isinstance(tgt, ast.Name) and isinstance(getattr(st, "value", None), ast.Constant):
+                heap0.setdefault(f"self.{tgt.id}", Const(st.value.value))
+        out = run_flow(program, st_uid, pol, args={"self": self_v}, heap=dict(heap0))
+        ends = [(f"after start() returned", dict(c.heap), any(e[0] == "call" and e[1] == "acquire" for e in c.trace)) for k, c, d in exits(out) if k == "return"]
+        if not ends or not any(h for _, _, h in ends):
+            raise AnalysisError(f"{st_uid}: no path of start() reaches the acquisition {acquire}")
+        states = [("before start()", dict(heap0), False)] + pol.snaps + ends
+        n = 0
+        for where, heap, held in states:
+            pol2 = FlowPolicy(program, may_raise_all=False, cancel=False, summaries=summ, events=[release])
+            o2 = run_flow(program, sp_uid, pol2, args={"self": self_v}, heap=heap)
+            bad = None
+            for k, c, d in exits(o2):
+                rels = [e for e in c.trace if e[0] == "call" and e[1] == release]
+                if k != "return":
+                    bad = f"stop() ends with {d}"
+                elif held and len(rels) != 1:
+                    bad = f"stop() releases {len(rels)} time(s) although start() had already acquired ({acquire}): the registration is never removed"
+                elif not held and shared and rels:
+                    bad = (f"stop() releases ({release}) although start() had not acquired anything yet: a registration of the same id made by another function is removed")
+            n += 1
+            ctx.check(bad is None, rid, sp_uid, f"stop() arriving {where} ({'holding' if held else 'not holding'})",
+                      msg=f"{cls_uid.split('::')[1]}: stop() arriving {where}: {bad}", key=f"typestate {where.split(' (line')[0]} held={held}", node=program.func(sp_uid), rel=rel)
+
+
+def timeout_table(ctx, program, rid):
+    """WaitUntilDecoratorManager.__init__ interpreted for timeout values: every given number - 0 included - yields the timeout trigger once(now + <t>s)."""
+    uid = "decorator.py::WaitUntilDecoratorManager.__init__"
+    for t in (0, 0.0, 0.5, 30, None, "absent"):
+        made = []
+
+        def to_dec(i, n, a, k, c, o, made=made):
+            made.append(a[0] if a else None)
+            return [(c, ObjV("todec", "TimeTriggerDecorator"))]
+
+        kw = DictV([(Const("state_trigger"), Const("d.a == '1'"))] + ([] if t == "absent" else [(Const("timeout"), Const(t))]))
+        pol = FlowPolicy(program, may_raise_all=False, cancel=False, events=["self.add"],
+                         summaries={"super().__init__": lambda i, n, a, k, c, o: [(c, NONE)], "self.hass.loop.create_future": lambda i, n, a, k, c, o: [(c, ObjV("fut", "Future"))],
+                                    "DecoratorRegistry._decorators.get": lambda i, n, a, k, c, o: [(c, FuncV(None, name="to_dec"))], "to_dec": to_dec})
+        out = run_flow(program, uid, pol, args={"self": ObjV("self", "WaitUntilDecoratorManager"), "ast_ctx": ObjV("actx", "AstEval"), "kwargs": kw})
+        bad = None
+        ex = exits(out)
+        for k, c, d in ex:
+            adds = [e for e in c.trace if e[0] == "call" and e[1] == "self.add"]
+            td = c.heap.get("self.timeout_decorator")
+            if k != "return":
+                bad = f"ends with {d}"
+            elif t in (None, "absent"):
+                if adds or td not in (NONE, None):
+                    bad = "a timeout trigger is created although no timeout was given"
+            else:
+                specs = [x.v for m in made if isinstance(m, ListV) for x in m.items if isinstance(x, Const)]
+                if len(adds) != 1 or td in (NONE, None):
+                    bad = f"no timeout trigger is created: the wait never returns 'timeout' (specs {specs})"
+                elif specs != [f"once(now + {t}s)"]:
+                    bad = f"the timeout trigger is built from {specs} instead of ['once(now + {t}s)']"
+        ctx.check(bool(ex) and bad is None, rid, uid, f"timeout={t!r}", msg=f"task.wait_until(..., timeout={t!r}) (new subsystem): {bad or 'no exit'}", key=f"timeout value {t!r}",
+                  node=program.func(uid), rel="decorator.py")
+
+
+def none_result_rule(ctx, program, rid):
+    """TimeTriggerDecorator._cycle with a specification that has no future instant, inside a wait with / without other conditions."""
+    from ..absint import ClassV
+    uid = "decorators/timing.py::TimeTriggerDecorator._cycle"
+    me = ObjV("self", "TimeTriggerDecorator")
+    others = {"only this time trigger": [], "a state trigger as well": [ObjV("st", "StateTriggerDecorator")], "a timeout as well": [ObjV("todec", "TimeTriggerDecorator")],
+              "an event trigger as well": [ObjV("ev", "EventTriggerDecorator")]}
+    for label, extra in others.items():
+        decs = ListV(tuple(extra + [me]), "list")
+        pol = FlowPolicy(program, may_raise_all=False, cancel=False, events=["self.dispatch"],
+                         summaries={"trigger.TrigTime.timer_trigger_next": lambda i, n, a, k, c, o: [(c, ListV((NONE, NONE), "tuple"))],
+                                    "self.dm.get_decorators": lambda i, n, a, k, c, o, decs=decs: [(c, decs)],
+                                    "DispatchData": lambda i, n, a, k, c, o: [(c, a[0] if a else NONE)]},
+                         globals_={"WaitUntilDecoratorManager": ClassV("WaitUntilDecoratorManager"), "TriggerDecorator": ClassV("TriggerDecorator"),
+                                   "TimeTriggerDecorator": ClassV("TimeTriggerDecorator")})
+        heap = {"self.dm": ObjV("dm", "WaitUntilDecoratorManager"), "dm.status": Sym(("clsattr", "DecoratorManagerStatus", "RUNNING")), "self.run_on_startup": Const(False),
+                "self.timespec": ListV((Const("once(2019/1/1 0:0)"),), "list"), "dm.startup_time": Sym(("t0",)), "dm._decorators": decs, "dm.timeout_decorator": extra[0] if label.startswith("a timeout") else NONE,
+                "self.name": Const("time_trigger"), "dm.name": Const("w")}
+        out = run_flow(program, uid, pol, args={"self": me}, heap=heap)
+        bad = None
+        ex = exits(out)
+        for k, c, d in ex:
+            nones = [e for e in c.trace if e[0] == "call" and e[1] == "self.dispatch" and "none" in repr(e[2])]
+            if k != "return":
+                bad = f"ends with {d}"
+            elif not extra and len(nones) != 1:
+                bad = f"'none' is dispatched {len(nones)} time(s): a wait on time triggers that have no future instant must return 'none'"
+            elif extra and nones:
+                bad = "'none' ends the wait at once although another condition (or the timeout) is still pending"
+        ctx.check(bool(ex) and bad is None, rid, uid, f"no future instant, {label}", msg=f"task.wait_until with a time trigger that has no future instant and {label}: {bad or 'no exit'}",
+                  key=f"none result: {label}", node=program.func(uid), rel="decorators/timing.py")
 
 
 class _StartPolicy(FlowPolicy):
